@@ -122,6 +122,11 @@ valid_epk = st.sampled_from(["P-256", "P-384", "P-521", "secp256k1", "X25519", "
 hostile_member = st.sampled_from([[["deriveKey"]], [{}], {"a": 1}, [1], 5, None, "", ["sign", ["x"]], [None], True, 1.5, "sig", ["deriveKey"], [[]]])
 valid_epk_plus = st.tuples(valid_epk, st.sampled_from(["use", "key_ops", "alg", "kid", "x5c", "x5u", "x5t", "x5t#S256", "oth", "d", "crv", "kty"]), hostile_member).map(
     lambda t: {**t[0], t[1]: t[2]})
+# use and key_ops together (they are cross-checked against each other), either of them hostile
+valid_epk_pair = st.tuples(valid_epk, st.one_of(hostile_member, st.sampled_from(["enc", "sig", "signature", "ENC"])),
+                           st.one_of(hostile_member, st.sampled_from([["deriveKey"], ["deriveBits", "deriveKey"], ["sign"], []]))).map(
+    lambda t: {**t[0], "use": t[1], "key_ops": t[2]})
+valid_epk_plus = st.one_of(valid_epk_plus, valid_epk_plus, valid_epk_pair)
 p2c_like = st.one_of(st.integers(-2**70, 5000), st.integers(2**63, 2**66), anyv)
 
 member_value = {
@@ -264,6 +269,10 @@ def g3_mutated(draw):
         out["idx"] = draw(st.sampled_from([9, 10, 14, 9, 10, 14, idx]))
         out["sub"] = draw(st.sampled_from(["use", "key_ops", "alg", "kid", "x5c", "x5u", "x5t", "crv", "kty", "x", "y", "d", "oth"]))
         out["value"] = _tame(draw(st.one_of(hostile_member, hostile_member, anyv)))
+        if out["sub"] in ("use", "key_ops") and draw(st.booleans()):
+            # the two are cross-checked against each other: the sibling is there as well (well-formed or hostile)
+            out["sub2"] = "key_ops" if out["sub"] == "use" else "use"
+            out["value2"] = _tame(draw(st.one_of(st.sampled_from([["deriveKey"], ["deriveBits"], []] if out["sub"] == "use" else ["enc", "sig"]), hostile_member)))
     return out
 
 
@@ -293,6 +302,8 @@ def build_g3(c):
         holders = [n for n, v in hdr.items() if isinstance(v, dict)]
         if holders:
             hdr[holders[c["seg_i"] % len(holders)]][c["sub"]] = c["value"]
+            if "sub2" in c:
+                hdr[holders[c["seg_i"] % len(holders)]][c["sub2"]] = c["value2"]
         else:
             hdr["jwk"] = {"kty": "oct", "k": "AAAA", c["sub"]: c["value"]}
     if e == "segment":
